@@ -97,6 +97,11 @@ def main():
         old = json.load(open(mp))
         for k, v in old.get("checks_run", {}).items():
             meta["checks_run"].setdefault(k, v)
+        if skip_suite and old.get("confirmed", {}).get("existing_tests_pass_with_change") is True:
+            meta["confirmed"]["existing_tests_pass_with_change"] = True
+            meta["existing_tests_cmd"] = old.get("existing_tests_cmd", "") + " (from an earlier evaluation of this change)"
+        if "verdict" in old:
+            meta["verdict"] = old["verdict"]
     meta["caught_by"] = sorted(p for p, v in meta["checks_run"].items() if v["caught"])
     json.dump(meta, open(mp, "w"), indent=1)
     print(json.dumps({"id": sid, "confirmed": meta["confirmed"], "caught_by": meta["caught_by"]}))
